@@ -444,6 +444,12 @@ func runCase(c Case) *vt.Outcome {
 			multiFrame = true
 		}
 		got := run(seq, e)
+		if got.stage != ref.stage && (got.stage == "deadlock" || ref.stage == "deadlock") {
+			// a deadlock that comes and goes with the goroutine schedule is not a matter of encoding
+			if again := run(seq, e); again.stage != got.stage {
+				return &vt.Outcome{Skip: "intermittent-deadlock"}
+			}
+		}
 		if got.stage != ref.stage {
 			o.Fail = vt.Failf("C04/"+kind+"/fails-differently", "zson: stage=%q err=%v; %s: stage=%q err=%v\nprogram: %s", ref.stage, ref.err, e.name, got.stage, got.err, c.Program)
 			return o
